@@ -53,9 +53,33 @@ section
 variable (he : error.isFull = false)
 include he
 
+/-- a column `ComptonProfile_Partial` does not read — Z out of range, no sub-shell record, `shell` outside
+`0 … NShells−1`, or occupancy 0 — is an error whatever the table holds there: **no shape hypothesis** -/
+theorem profile_unoccupied_fails (hg : hasProfile T Z shell = false)
+    (hlen : T.NShells_ComptonProfiles Z.toNat ≤ (T.UOCCUP_ComptonProfiles Z.toNat).len) :
+    Fails (Gen.ComptonProfile_Partial T Z shell pz error) error ∧ Spec.ComptonProfile_Partial T Z shell pz = .fails := by
+  have hg0 : ¬ hasProfile T Z shell = true := by rw [hg]; simp
+  have hn := (not_congr (hasProfile_iff T Z shell)).1 hg0
+  refine ⟨?_, by unfold Spec.ComptonProfile_Partial interp; simp only [hg, Bool.false_and, Bool.false_eq_true, if_false]⟩
+  unfold Gen.ComptonProfile_Partial
+  by_cases hZ : Z < 1 ∨ Z > 120
+  · simp only [hZ, if_true, pure_eq_ok, bind_ok, setErr_notFull he]; exact fails_mk' (by decide) (by decide)
+  · have hb : 0 ≤ Z ∧ Z < 121 := by omega
+    simp only [hZ, if_false, rd1_ok' _ _ hb, bind_ok, pure_eq_ok]
+    by_cases hN : T.NShells_ComptonProfiles Z.toNat < 1
+    · simp only [hN, decide_true, if_true, bind_ok, setErr_notFull he]; exact fails_mk' (by decide) (by decide)
+    · simp only [hN, decide_false, Bool.false_eq_true, if_false]
+      by_cases hsh : shell ≥ T.NShells_ComptonProfiles Z.toNat ∨ shell < 0
+      · simp only [hsh, if_true, bind_ok, pure_eq_ok, setErr_notFull he]; exact fails_mk' (by decide) (by decide)
+      · have hocc : (T.UOCCUP_ComptonProfiles Z.toNat).get shell.toNat = (0.0 : ℝ) := by
+          by_contra hh; exact hn ⟨by omega, by omega, by omega, hh⟩
+        simp only [hsh, if_false, rdv_ok' _ _ (show 0 ≤ shell ∧ shell < (T.UOCCUP_ComptonProfiles Z.toNat).len by omega),
+          bind_ok, pure_eq_ok, deq_real, hocc, decide_true, if_true, setErr_notFull he]
+        exact fails_mk' (by decide) (by decide)
+
+/-- the site theorem; `profileColOkB` asks `vecOkB` of the column only when the column is read (`hasProfile`) -/
 theorem site_spec_ComptonProfile_Partial
-    (hs : vecOkB (T.pz_ComptonProfiles Z.toNat) (T.Partial_ComptonProfiles Z.toNat shell.toNat)
-      (T.Partial_ComptonProfiles2 Z.toNat shell.toNat) (T.Npz_ComptonProfiles Z.toNat) = true)
+    (hs : profileColOkB T Z shell = true)
     (hp : profileOkB T Z = true) :
     Meets (Gen.ComptonProfile_Partial T Z shell pz error) error (Spec.ComptonProfile_Partial T Z shell pz) := by
   unfold profileOkB at hp
@@ -64,7 +88,11 @@ theorem site_spec_ComptonProfile_Partial
   have h29 : T.NShells_ComptonProfiles Z.toNat ≤ 29 := h29
   unfold Gen.ComptonProfile_Partial Spec.ComptonProfile_Partial interp
   by_cases hg : hasProfile T Z shell = true
-  · obtain ⟨hZ, hs0, hs1, hocc⟩ := (hasProfile_iff T Z shell).1 hg
+  · have hs : vecOkB (T.pz_ComptonProfiles Z.toNat) (T.Partial_ComptonProfiles Z.toNat shell.toNat)
+        (T.Partial_ComptonProfiles2 Z.toNat shell.toNat) (T.Npz_ComptonProfiles Z.toNat) = true := by
+      unfold profileColOkB at hs
+      simpa only [hg, Bool.not_true, Bool.false_or] using hs
+    obtain ⟨hZ, hs0, hs1, hocc⟩ := (hasProfile_iff T Z shell).1 hg
     have hb : 0 ≤ Z ∧ Z < 121 := by omega
     have hZ' : ¬ (Z < 1 ∨ Z > 120) := by omega
     have hN : ¬ T.NShells_ComptonProfiles Z.toNat < 1 := by omega
@@ -98,22 +126,11 @@ theorem site_spec_ComptonProfile_Partial
           simp only [bind_ok, pure_eq_ok, Meets, ne_eq, not_true_eq_false, not_false_eq_true, if_true]
           exact fails_mk' (by decide) (by decide)
   · have hg' : hasProfile T Z shell = false := by simpa using hg
-    simp only [hg', Bool.false_and, Bool.false_eq_true, if_false, Meets]
-    have hn := (not_congr (hasProfile_iff T Z shell)).1 hg
-    by_cases hZ : Z < 1 ∨ Z > 120
-    · simp only [hZ, if_true, pure_eq_ok, bind_ok, setErr_notFull he]; exact fails_mk' (by decide) (by decide)
-    · have hb : 0 ≤ Z ∧ Z < 121 := by omega
-      simp only [hZ, if_false, rd1_ok' _ _ hb, bind_ok, pure_eq_ok]
-      by_cases hN : T.NShells_ComptonProfiles Z.toNat < 1
-      · simp only [hN, decide_true, if_true, bind_ok, setErr_notFull he]; exact fails_mk' (by decide) (by decide)
-      · simp only [hN, decide_false, Bool.false_eq_true, if_false]
-        by_cases hsh : shell ≥ T.NShells_ComptonProfiles Z.toNat ∨ shell < 0
-        · simp only [hsh, if_true, bind_ok, pure_eq_ok, setErr_notFull he]; exact fails_mk' (by decide) (by decide)
-        · have hocc : (T.UOCCUP_ComptonProfiles Z.toNat).get shell.toNat = (0.0 : ℝ) := by
-            by_contra hh; exact hn ⟨by omega, by omega, by omega, hh⟩
-          simp only [hsh, if_false, rdv_ok' _ _ (show 0 ≤ shell ∧ shell < (T.UOCCUP_ComptonProfiles Z.toNat).len by omega),
-            bind_ok, pure_eq_ok, deq_real, hocc, decide_true, if_true, setErr_notFull he]
-          exact fails_mk' (by decide) (by decide)
+    obtain ⟨hf, hsp⟩ := profile_unoccupied_fails T Z shell pz error he hg' hlen
+    have hsp' := hsp
+    unfold Spec.ComptonProfile_Partial interp at hsp'
+    rw [hsp']
+    exact hf
 
 end
 
@@ -145,13 +162,13 @@ theorem kisselShape_spec (h : kisselShapeB T Z shell = true)
       (m : Int) ≤ (T.Photo_Partial_Kissel2 Z.toNat shell.toNat).len ∧
       SortedKnots (T.E_Photo_Partial_Kissel Z.toNat shell.toNat) m ∧
       (T.E_Photo_Partial_Kissel Z.toNat shell.toNat).get 0 < (T.E_Photo_Partial_Kissel Z.toNat shell.toNat).get 1 := by
+  have hr : kisselReadable T Z shell = true := by
+    unfold kisselReadable
+    rw [Bool.and_eq_true]
+    exact ⟨by rw [Bool.not_eq_true', decide_eq_false_iff_not]; exact hocc, decide_eq_true hedge⟩
   unfold kisselShapeB kisselOkB at h
-  rw [Bool.and_eq_true] at h
-  obtain ⟨hv, hk⟩ := h
-  simp only [Bool.or_eq_true, Bool.and_eq_true, decide_eq_true_eq, Bool.not_eq_true', decide_eq_false_iff_not] at hk
-  rcases hk with (hk | hk) | ⟨hn, hlt⟩
-  · exact absurd hk hocc
-  · exact absurd hedge hk
+  simp only [hr, Bool.not_true, Bool.false_or, Bool.and_eq_true, decide_eq_true_eq] at h
+  obtain ⟨hv, hn, hlt⟩ := h
   · rcases vecOkB_spec _ _ _ _ hv with hneg | ⟨h1, hx, hy, h2, hsort⟩
     · omega
     · refine ⟨(T.NE_Photo_Partial_Kissel Z.toNat shell.toNat).toNat, by omega, by omega, by omega, by omega, by omega,
@@ -162,76 +179,105 @@ section
 variable (he : error.isFull = false)
 include he
 
-theorem site_spec_CSb_Photo_Partial (hs : kisselShapeB T Z shell = true) :
-    Meets (Gen.CSb_Photo_Partial T Z shell E error) error (Spec.CSb_Photo_Partial T Z shell E) := by
-  unfold Gen.CSb_Photo_Partial Spec.CSb_Photo_Partial
-  by_cases hg : kisselGuard T Z shell E = true
-  · obtain ⟨hZ, hsh, hE, hocc, hedge, hEe⟩ := (kisselGuard_iff T Z shell E).1 hg
-    obtain ⟨m, hm, hm2, hx, hy, h2, hsort, hlt⟩ := kisselShape_spec T Z shell hs hocc hedge
-    have hb : 0 ≤ Z ∧ Z < 121 := by omega
-    have hZ' : ¬ (Z < 1 ∨ Z > 120) := by omega
-    have hs1 : ¬ (shell < 0 ∨ shell ≥ 31) := by omega
-    have hs2 : ¬ shell ≥ 28 := by omega
-    have hE' : ¬ E ≤ (0.0 : ℝ) := not_le.2 hE
-    have hedge' : ¬ T.EdgeEnergy_arr Z.toNat shell.toNat ≤ (0.0 : ℝ) := not_le.2 hedge
-    have j31 : 0 ≤ shell ∧ shell < (31 : Nat) := by omega
-    have j28 : 0 ≤ shell ∧ shell < (28 : Nat) := by omega
-    have k0 : (0 : Int) ≤ 0 ∧ (0 : Int) < (T.E_Photo_Partial_Kissel Z.toNat shell.toNat).len := by omega
-    have k1 : (0 : Int) ≤ 1 ∧ (1 : Int) < (T.E_Photo_Partial_Kissel Z.toNat shell.toNat).len := by omega
-    have l0 : (0 : Int) ≤ 0 ∧ (0 : Int) < (T.Photo_Partial_Kissel Z.toNat shell.toNat).len := by omega
-    have l1 : (0 : Int) ≤ 1 ∧ (1 : Int) < (T.Photo_Partial_Kissel Z.toNat shell.toNat).len := by omega
-    simp only [hg, if_true, hZ', hs1, hE', if_false, hs2, rd2_ok' _ 31 _ hb j31, rd2_ok' _ 28 _ hb j28, bind_ok, pure_eq_ok,
-      hocc, decide_false, Bool.false_eq_true, hedge', hEe, dlog, rdv_ok' _ _ k0, rdv_ok' _ _ k1, rdv_ok' _ _ l0,
-      rdv_ok' _ _ l1, Int.toNat_zero, Int.toNat_one, knot, Nat.sub_self]
-    by_cases hlow : XNum.log E < (T.E_Photo_Partial_Kissel Z.toNat shell.toNat).get 0
-    · have hne : ¬ (T.E_Photo_Partial_Kissel Z.toNat shell.toNat).get 1 -
-          (T.E_Photo_Partial_Kissel Z.toNat shell.toNat).get 0 = (0.0 : ℝ) := by
-        norm_num; linarith
-      simp only [hlow, if_true, ddiv, deq_real, hne, if_false, bind_ok, pure_eq_ok, kisselExtension, clampSlope, knot,
-        Nat.sub_self, show (2 : Nat) - 1 = 1 from rfl, Meets, Returns]
-      split_ifs <;> rfl
-    · have key := splint_spec (T.E_Photo_Partial_Kissel Z.toNat shell.toNat) (T.Photo_Partial_Kissel Z.toNat shell.toNat)
-        (T.Photo_Partial_Kissel2 Z.toNat shell.toNat) m (XNum.log E) error he (by omega) hx hy h2 hsort
-      simp only [hlow, if_false, hm, key, interp, if_true, Int.toNat_natCast]
-      cases hsp : spline (T.E_Photo_Partial_Kissel Z.toNat shell.toNat) (T.Photo_Partial_Kissel Z.toNat shell.toNat)
-        (T.Photo_Partial_Kissel2 Z.toNat shell.toNat) m (XNum.log E) with
-      | some y =>
-        simp only [bind_ok, pure_eq_ok, Meets, Returns, ne_eq, one_ne_zero, not_false_eq_true, not_true_eq_false,
-          if_false]
-      | none =>
-        simp only [bind_ok, pure_eq_ok, Meets, ne_eq, not_true_eq_false, not_false_eq_true, if_true]
+/-- a call that does not pass the guards — Z or shell out of range, `E ≤ 0`, sub-shell unoccupied or without an edge,
+`E` below the edge — is an error whatever the sub-shell's table holds: **no shape hypothesis** -/
+theorem kissel_guard_fails (hg : kisselGuard T Z shell E = false) :
+    Fails (Gen.CSb_Photo_Partial T Z shell E error) error ∧ Spec.CSb_Photo_Partial T Z shell E = .fails := by
+  have hg0 : ¬ kisselGuard T Z shell E = true := by rw [hg]; simp
+  have hn := (not_congr (kisselGuard_iff T Z shell E)).1 hg0
+  refine ⟨?_, by unfold Spec.CSb_Photo_Partial; simp only [hg, Bool.false_eq_true, if_false]⟩
+  unfold Gen.CSb_Photo_Partial
+  by_cases hZ : Z < 1 ∨ Z > 120
+  · simp only [hZ, if_true, pure_eq_ok, bind_ok, setErr_notFull he]; exact fails_mk' (by decide) (by decide)
+  · by_cases hs1 : shell < 0 ∨ shell ≥ 31
+    · simp only [hZ, hs1, if_true, if_false, pure_eq_ok, bind_ok, setErr_notFull he]
+      exact fails_mk' (by decide) (by decide)
+    · by_cases hE : E ≤ (0.0 : ℝ)
+      · simp only [hZ, hs1, hE, if_true, if_false, pure_eq_ok, bind_ok, setErr_notFull he]
         exact fails_mk' (by decide) (by decide)
-  · have hn := (not_congr (kisselGuard_iff T Z shell E)).1 hg
-    have hg' : kisselGuard T Z shell E = false := by simpa using hg
-    simp only [hg', Bool.false_eq_true, if_false, Meets]
-    by_cases hZ : Z < 1 ∨ Z > 120
-    · simp only [hZ, if_true, pure_eq_ok, bind_ok, setErr_notFull he]; exact fails_mk' (by decide) (by decide)
-    · by_cases hs1 : shell < 0 ∨ shell ≥ 31
-      · simp only [hZ, hs1, if_true, if_false, pure_eq_ok, bind_ok, setErr_notFull he]
-        exact fails_mk' (by decide) (by decide)
-      · by_cases hE : E ≤ (0.0 : ℝ)
-        · simp only [hZ, hs1, hE, if_true, if_false, pure_eq_ok, bind_ok, setErr_notFull he]
-          exact fails_mk' (by decide) (by decide)
-        · have hb : 0 ≤ Z ∧ Z < 121 := by omega
-          have j31 : 0 ≤ shell ∧ shell < (31 : Nat) := by omega
-          simp only [hZ, hs1, hE, if_false]
-          by_cases hs2 : shell ≥ 28
-          · simp only [hs2, if_true, pure_eq_ok, bind_ok, setErr_notFull he]; exact fails_mk' (by decide) (by decide)
-          · have j28 : 0 ≤ shell ∧ shell < (28 : Nat) := by omega
-            simp only [hs2, if_false, rd2_ok' _ 31 _ hb j31, rd2_ok' _ 28 _ hb j28, bind_ok, pure_eq_ok]
-            by_cases hocc : T.Electron_Config_Kissel Z.toNat shell.toNat < (1.0e-6 : ℝ)
-            · simp only [hocc, decide_true, if_true, pure_eq_ok, bind_ok, setErr_notFull he]
+      · have hb : 0 ≤ Z ∧ Z < 121 := by omega
+        have j31 : 0 ≤ shell ∧ shell < (31 : Nat) := by omega
+        simp only [hZ, hs1, hE, if_false]
+        by_cases hs2 : shell ≥ 28
+        · simp only [hs2, if_true, pure_eq_ok, bind_ok, setErr_notFull he]; exact fails_mk' (by decide) (by decide)
+        · have j28 : 0 ≤ shell ∧ shell < (28 : Nat) := by omega
+          simp only [hs2, if_false, rd2_ok' _ 31 _ hb j31, rd2_ok' _ 28 _ hb j28, bind_ok, pure_eq_ok]
+          by_cases hocc : T.Electron_Config_Kissel Z.toNat shell.toNat < (1.0e-6 : ℝ)
+          · simp only [hocc, decide_true, if_true, pure_eq_ok, bind_ok, setErr_notFull he]
+            exact fails_mk' (by decide) (by decide)
+          · by_cases hedge : T.EdgeEnergy_arr Z.toNat shell.toNat ≤ (0.0 : ℝ)
+            · simp only [hocc, decide_false, Bool.false_eq_true, if_false, hedge, decide_true, if_true, pure_eq_ok,
+                bind_ok, setErr_notFull he]
               exact fails_mk' (by decide) (by decide)
-            · by_cases hedge : T.EdgeEnergy_arr Z.toNat shell.toNat ≤ (0.0 : ℝ)
-              · simp only [hocc, decide_false, Bool.false_eq_true, if_false, hedge, decide_true, if_true, pure_eq_ok,
-                  bind_ok, setErr_notFull he]
-                exact fails_mk' (by decide) (by decide)
-              · have hEe : E < T.EdgeEnergy_arr Z.toNat shell.toNat := by
-                  by_contra hh
-                  exact hn ⟨by omega, by omega, not_le.1 hE, hocc, not_le.1 hedge, hh⟩
-                simp only [hocc, decide_false, Bool.false_eq_true, if_false, hedge, hEe, if_true, pure_eq_ok,
-                  bind_ok, setErr_notFull he]
-                exact fails_mk' (by decide) (by decide)
+            · have hEe : E < T.EdgeEnergy_arr Z.toNat shell.toNat := by
+                by_contra hh
+                exact hn ⟨by omega, by omega, not_le.1 hE, hocc, not_le.1 hedge, hh⟩
+              simp only [hocc, decide_false, Bool.false_eq_true, if_false, hedge, hEe, if_true, pure_eq_ok,
+                bind_ok, setErr_notFull he]
+              exact fails_mk' (by decide) (by decide)
+
+
+/-- an unreadable cell (occupancy below 1e-6 or no edge) is an error at every energy, whatever its table holds -/
+theorem kissel_unreadable_fails (hr : kisselReadable T Z shell = false) :
+    Fails (Gen.CSb_Photo_Partial T Z shell E error) error ∧ Spec.CSb_Photo_Partial T Z shell E = .fails := by
+  apply kissel_guard_fails T Z shell E error he
+  rw [← Bool.not_eq_true, kisselGuard_iff]
+  rintro ⟨_, _, _, hocc, hedge, _⟩
+  unfold kisselReadable at hr
+  rw [Bool.and_eq_false_iff] at hr
+  rcases hr with hr | hr
+  · rw [Bool.not_eq_false', decide_eq_true_eq] at hr; exact hocc hr
+  · rw [decide_eq_false_iff_not] at hr; exact hr hedge
+
+/-- the site theorem with the shape condition asked only when the call passes the guards -/
+theorem site_spec_CSb_Photo_Partial_of (hs : kisselGuard T Z shell E = true → kisselShapeB T Z shell = true) :
+    Meets (Gen.CSb_Photo_Partial T Z shell E error) error (Spec.CSb_Photo_Partial T Z shell E) := by
+  by_cases hg : kisselGuard T Z shell E = true
+  swap
+  · obtain ⟨hf, hsp⟩ := kissel_guard_fails T Z shell E error he (by simpa using hg)
+    rw [hsp]; exact hf
+  have hs := hs hg
+  unfold Gen.CSb_Photo_Partial Spec.CSb_Photo_Partial
+  obtain ⟨hZ, hsh, hE, hocc, hedge, hEe⟩ := (kisselGuard_iff T Z shell E).1 hg
+  obtain ⟨m, hm, hm2, hx, hy, h2, hsort, hlt⟩ := kisselShape_spec T Z shell hs hocc hedge
+  have hb : 0 ≤ Z ∧ Z < 121 := by omega
+  have hZ' : ¬ (Z < 1 ∨ Z > 120) := by omega
+  have hs1 : ¬ (shell < 0 ∨ shell ≥ 31) := by omega
+  have hs2 : ¬ shell ≥ 28 := by omega
+  have hE' : ¬ E ≤ (0.0 : ℝ) := not_le.2 hE
+  have hedge' : ¬ T.EdgeEnergy_arr Z.toNat shell.toNat ≤ (0.0 : ℝ) := not_le.2 hedge
+  have j31 : 0 ≤ shell ∧ shell < (31 : Nat) := by omega
+  have j28 : 0 ≤ shell ∧ shell < (28 : Nat) := by omega
+  have k0 : (0 : Int) ≤ 0 ∧ (0 : Int) < (T.E_Photo_Partial_Kissel Z.toNat shell.toNat).len := by omega
+  have k1 : (0 : Int) ≤ 1 ∧ (1 : Int) < (T.E_Photo_Partial_Kissel Z.toNat shell.toNat).len := by omega
+  have l0 : (0 : Int) ≤ 0 ∧ (0 : Int) < (T.Photo_Partial_Kissel Z.toNat shell.toNat).len := by omega
+  have l1 : (0 : Int) ≤ 1 ∧ (1 : Int) < (T.Photo_Partial_Kissel Z.toNat shell.toNat).len := by omega
+  simp only [hg, if_true, hZ', hs1, hE', if_false, hs2, rd2_ok' _ 31 _ hb j31, rd2_ok' _ 28 _ hb j28, bind_ok, pure_eq_ok,
+    hocc, decide_false, Bool.false_eq_true, hedge', hEe, dlog, rdv_ok' _ _ k0, rdv_ok' _ _ k1, rdv_ok' _ _ l0,
+    rdv_ok' _ _ l1, Int.toNat_zero, Int.toNat_one, knot, Nat.sub_self]
+  by_cases hlow : XNum.log E < (T.E_Photo_Partial_Kissel Z.toNat shell.toNat).get 0
+  · have hne : ¬ (T.E_Photo_Partial_Kissel Z.toNat shell.toNat).get 1 -
+        (T.E_Photo_Partial_Kissel Z.toNat shell.toNat).get 0 = (0.0 : ℝ) := by
+      norm_num; linarith
+    simp only [hlow, if_true, ddiv, deq_real, hne, if_false, bind_ok, pure_eq_ok, kisselExtension, clampSlope, knot,
+      Nat.sub_self, show (2 : Nat) - 1 = 1 from rfl, Meets, Returns]
+    split_ifs <;> rfl
+  · have key := splint_spec (T.E_Photo_Partial_Kissel Z.toNat shell.toNat) (T.Photo_Partial_Kissel Z.toNat shell.toNat)
+      (T.Photo_Partial_Kissel2 Z.toNat shell.toNat) m (XNum.log E) error he (by omega) hx hy h2 hsort
+    simp only [hlow, if_false, hm, key, interp, if_true, Int.toNat_natCast]
+    cases hsp : spline (T.E_Photo_Partial_Kissel Z.toNat shell.toNat) (T.Photo_Partial_Kissel Z.toNat shell.toNat)
+      (T.Photo_Partial_Kissel2 Z.toNat shell.toNat) m (XNum.log E) with
+    | some y =>
+      simp only [bind_ok, pure_eq_ok, Meets, Returns, ne_eq, one_ne_zero, not_false_eq_true, not_true_eq_false,
+        if_false]
+    | none =>
+      simp only [bind_ok, pure_eq_ok, Meets, ne_eq, not_true_eq_false, not_false_eq_true, if_true]
+      exact fails_mk' (by decide) (by decide)
+
+/-- **the site theorem**: `kisselShapeB` constrains the table only for a readable cell (occupied, with an edge) -/
+theorem site_spec_CSb_Photo_Partial (hs : kisselShapeB T Z shell = true) :
+    Meets (Gen.CSb_Photo_Partial T Z shell E error) error (Spec.CSb_Photo_Partial T Z shell E) :=
+  site_spec_CSb_Photo_Partial_of T Z shell E error he (fun _ => hs)
 
 end
 
@@ -374,11 +420,17 @@ theorem wit_sorted : SortedKnots knots01 2 := by
 
 theorem witK_shape (aw : ℝ) (shell : Int) : kisselShapeB (witK aw) 1 shell = true := by
   unfold kisselShapeB kisselOkB
-  show (vecOkB knots01 ys35 zeros2 2 && _) = true
-  rw [wit_vec, Bool.true_and, Bool.or_eq_true]
+  rw [Bool.or_eq_true]
   right
-  show (decide ((2 : Int) ≤ 2) && decide (knot knots01 1 < knot knots01 2)) = true
+  show (vecOkB knots01 ys35 zeros2 2 && (decide ((2 : Int) ≤ 2) && decide (knot knots01 1 < knot knots01 2))) = true
+  rw [wit_vec]
   simp [knot, knots01]
+
+theorem witK_col (aw : ℝ) (shell : Int) : profileColOkB (witK aw) 1 shell = true := by
+  unfold profileColOkB
+  rw [Bool.or_eq_true]
+  right
+  exact wit_vec
 
 theorem witK_guard (aw : ℝ) (E : ℝ) (hE : 1 / 2 ≤ E) : kisselGuard (witK aw) 1 0 E = true := by
   rw [kisselGuard_iff]
@@ -437,7 +489,7 @@ theorem witK_profile (aw : ℝ) : profileOkB (witK aw) 1 = true := by
 
 /-- the sub-shell profile at `pz = 0` (first knot): the tabulated `e³` -/
 example : Meets (Gen.ComptonProfile_Partial (witK 2) 1 0 0 Slot.empty) Slot.empty (.value (Real.exp 3)) := by
-  have := site_spec_ComptonProfile_Partial (witK 2) 1 0 0 Slot.empty rfl wit_vec (witK_profile 2)
+  have := site_spec_ComptonProfile_Partial (witK 2) 1 0 0 Slot.empty rfl (witK_col 2 _) (witK_profile 2)
   have hg : hasProfile (witK 2) 1 0 = true := by
     rw [hasProfile_iff]
     refine ⟨by omega, le_refl _, by show (0 : Int) < 1; omega, ?_⟩
@@ -458,13 +510,21 @@ example : Meets (Gen.ComptonProfile_Partial (witK 2) 1 0 0 Slot.empty) Slot.empt
 
 /-- a sub-shell the element does not have: an error -/
 example : Fails (Gen.ComptonProfile_Partial (witK 2) 1 1 0 Slot.empty) Slot.empty := by
-  have := site_spec_ComptonProfile_Partial (witK 2) 1 1 0 Slot.empty rfl wit_vec (witK_profile 2)
+  have := site_spec_ComptonProfile_Partial (witK 2) 1 1 0 Slot.empty rfl (witK_col 2 _) (witK_profile 2)
   have hg : hasProfile (witK 2) 1 1 = false := by
     rw [← Bool.not_eq_true, hasProfile_iff]
     rintro ⟨_, _, h, _⟩
     exact absurd h (by show ¬ (1 : Int) < 1; omega)
   unfold Spec.ComptonProfile_Partial interp at this
   simpa only [hg, Bool.false_and, Bool.false_eq_true, if_false, Meets] using this
+
+/-- an unoccupied sub-shell (L1 of the instance): an error without any assumption on its table -/
+example (E : ℝ) : Fails (Gen.CSb_Photo_Partial (witK 2) 1 1 E Slot.empty) Slot.empty :=
+  (kissel_unreadable_fails (witK 2) 1 1 E Slot.empty rfl (by
+    unfold kisselReadable
+    have : decide ((witK 2).Electron_Config_Kissel (1 : Int).toNat (1 : Int).toNat < (1.0e-6 : ℝ)) = true :=
+      decide_eq_true (by show (0 : ℝ) < 1.0e-6; norm_num)
+    rw [this]; rfl)).1
 
 end witness
 
